@@ -7,6 +7,7 @@ from sa.loader import AnalysisError, own_nodes
 from sa.model import u, where
 from sa.paths import Enumerator, path_nodes
 from sa.pattern import find_expr, find_stmt, has_expr, has_stmt, match_expr, match_stmt
+from sa.normalize import resolve_here
 
 EJ = 'dataflows.helpers.extended_json'
 
@@ -188,22 +189,36 @@ def check(ctx):
 
     run.rule('R25', 'FRAMING: the writer emits one single-line JSON document plus a newline per object and the reader reads line by '
                     'line, ends a resource at the first blank line and produces one reader per resource of the stored descriptor')
-    wr = repo.func('dataflows.processors.stream:stream.write')
-    dumps = [n for n in ast.walk(wr.node) if isinstance(n, ast.Call) and u(n.func) == 'ejson.dumps']
-    ok = len(dumps) == 1 and not any(k.arg == 'indent' and not (isinstance(k.value, ast.Constant) and k.value.value is None)
-                                     for k in dumps[0].keywords)
-    w = [n for n in ast.walk(wr.node) if isinstance(n, ast.Call) and isinstance(n.func, ast.Attribute) and n.func.attr == 'write']
-    ok = ok and len(w) == 1 and isinstance(w[0].args[0], ast.BinOp) and isinstance(w[0].args[0].right, ast.Constant) and \
-        w[0].args[0].right.value == '\n' and w[0].args[0].left is dumps[0]
+    from rules import commits
+    roles = commits.stream_roles(ctx)
+    wr = roles['write']
+    ok, why = commits.one_line_per_object(ctx, wr)
     run.check(ok, 'R25', wr.where, wr.qualname, "file.write(ejson.dumps(obj) + '\\n') without indent",
-              'an object is not written as exactly one line')
+              'an object is not written as exactly one line: ' + why)
     un = repo.func('dataflows.processors.unstream:unstream')
-    rd = repo.func('dataflows.processors.unstream:unstream.read')
-    rr = repo.func('dataflows.processors.unstream:unstream.res_reader')
-    fn = repo.func('dataflows.processors.unstream:unstream.func')
-    ok = (has_stmt('_l = _f.readline().strip()', rd.node) or has_stmt('_l = _f.readline()', rd.node)) and \
-        (has_stmt('if len(_l) > 0:\n    return ejson.loads(_l)', rd.node) or has_stmt('if _l:\n    return ejson.loads(_l)', rd.node)) and \
-        has_stmt('return None', rd.node)
+    kids = [f for f in repo.functions.values() if f.parent is un and not isinstance(f.node, ast.Lambda)]
+    fns = [f for f in kids if f.all_params == ['package'] and f.is_generator]
+    rrs = [f for f in kids if f.is_generator and f not in fns]
+    rds = [f for f in kids if not f.is_generator]
+    if len(fns) != 1 or len(rrs) != 1 or len(rds) != 1:
+        raise AnalysisError('unstream: package step / resource reader / line reader not found by role')
+    fn, rr, rd = ctx.N(fns[0]), ctx.N(rrs[0], keep=(rds[0].qualname,)), ctx.N(rds[0])
+    rets = [n for n in ast.walk(rd.node) if isinstance(n, ast.Return)]
+    loads = [n for n in ast.walk(rd.node) if isinstance(n, ast.Call) and u(n.func) == 'ejson.loads']
+    ok = has_expr('_f.readline()', rd.node) and len(loads) == 1 and \
+        any(r.value is None or (isinstance(r.value, ast.Constant) and r.value.value is None) for r in rets)
+    if ok:
+        # the document is decoded only when the (stripped) line is non-empty; otherwise None (= end of resource)
+        paths = Enumerator(where=rd.qualname).paths(rd.node.body)
+        for p_ in paths:
+            has_load = any(n is loads[0] for n in path_nodes(p_))
+            r_ = [it.node for it in p_.items if it.kind == 'return']
+            if has_load:
+                ok = ok and len(r_) == 1 and r_[0].value is not None and any(n is loads[0] for n in ast.walk(r_[0].value))
+            else:
+                ok = ok and (not r_ or r_[0].value is None or (isinstance(r_[0].value, ast.Constant) and r_[0].value.value is None))
+        g = [resolve_here(t) for p_ in paths for t, pol in p_.guards()]
+        ok = ok and any('readline()' in u(t) for t in g)
     run.check(ok, 'R25', rd.where, rd.qualname, 'readline -> loads, blank -> None', 'the reader does not read one document per line')
     loops = [n for n in own_nodes(rr.node) if isinstance(n, ast.While)]
     ok = len(loops) == 1
@@ -217,13 +232,19 @@ def check(ctx):
             elif isnone[0]:
                 ok = ok and len(ys) == 1 and p_.term == 'fall'
             else:
-                ok = ok and not ys and p_.term == 'break'
+                ok = ok and not ys and p_.term in ('break', 'return')
+    else:
+        # for-loop form: for r in iter(read, None): yield r
+        fl = [n for n in own_nodes(rr.node) if isinstance(n, ast.For)]
+        ok = len(fl) == 1 and match_expr('iter(%s, None)' % rd.name, fl[0].iter) is not None and \
+            [u(y) for y in ast.walk(fl[0]) if isinstance(y, ast.Yield)] == ['(yield %s)' % u(fl[0].target)]
     run.check(ok, 'R25', rr.where, rr.qualname, 'yield rows until the first blank line, then stop',
               'a resource reader does not stop exactly at the blank line that ends its resource')
-    ys = [y for y in own_nodes(fn.node) if isinstance(y, ast.Yield)]
+    ys = [y for y in ast.walk(fn.node) if isinstance(y, ast.Yield)]
     lp = [n for n in own_nodes(fn.node) if isinstance(n, ast.For)]
     ok = len(ys) == 2 and len(lp) == 1 and u(lp[0].iter).endswith("['resources']") and ys[1] in list(ast.walk(lp[0])) and \
-        u(ys[1].value) == 'res_reader()' and 'Package(' in u(ys[0].value) and names_in(ys[0].value) & names_in(lp[0].iter)
+        isinstance(ys[1].value, ast.Call) and any(t is rrs[0] for t in res._resolve_callee(ys[1].value.func, fn.module, fns[0])) and \
+        'Package(' in u(ys[0].value) and bool(names_in(ys[0].value) & names_in(lp[0].iter))
     run.check(ok, 'R25', fn.where, fn.qualname, "descriptor = read(); yield Package(descriptor); one res_reader() per resource",
               'the reader does not produce the stored descriptor followed by one stream per stored resource')
     run.trusted += ['LF7 timedelta.seconds is in [0, 86400)', 'json.dumps without indent emits no newline; ensure_ascii escapes line separators']
